@@ -213,9 +213,10 @@ pub fn strategy() -> BoxedStrategy<Case> {
     (12i32..=32, 12i32..=32)
         .prop_flat_map(|(w, h)| {
             let ext = w.max(h) as f32;
-            (Just((w, h)), path_strategy(ext), prop_oneof![3 => Just(IDENT), 4 => xf_invertible(6.0)], prop::bool::weighted(0.3))
+            let zoom = prop_oneof![12 => Just(1.0f32), 1 => Just(4096.0f32), 1 => Just(65536.0f32), 1 => Just(1.0f32 / 64.0)];
+            (Just((w, h)), path_strategy(ext), prop_oneof![3 => Just(IDENT), 4 => xf_invertible(6.0)], prop::bool::weighted(0.3), zoom)
         })
-        .prop_map(|((w, h), path, xf, as_clip)| {
+        .prop_map(|((w, h), path, xf, as_clip, zoom)| {
             // keep device-space geometry within the working range (+-4000 px)
             let mut xf = xf;
             let maxc = path.points().iter().fold(1.0f64, |m, p| m.max(p.0.abs() as f64).max(p.1.abs() as f64));
@@ -226,6 +227,22 @@ pub fn strategy() -> BoxedStrategy<Case> {
                     *v *= s;
                 }
             }
+            // zoom: the same picture in user units `zoom` times smaller under a CTM `zoom` times larger
+            let mut path = path;
+            if zoom != 1.0 {
+                for op in path.ops.iter_mut() {
+                    *op = match *op {
+                        POp::M(x, y) => POp::M(x / zoom, y / zoom),
+                        POp::L(x, y) => POp::L(x / zoom, y / zoom),
+                        POp::Q(a, b, x, y) => POp::Q(a / zoom, b / zoom, x / zoom, y / zoom),
+                        POp::C(a, b, c, d, x, y) => POp::C(a / zoom, b / zoom, c / zoom, d / zoom, x / zoom, y / zoom),
+                        POp::Z => POp::Z,
+                    };
+                }
+                for v in xf.iter_mut().take(4) {
+                    *v *= zoom;
+                }
+            }
             Case { w, h, path, xf, as_clip }
         })
         .boxed()
@@ -234,7 +251,7 @@ pub fn strategy() -> BoxedStrategy<Case> {
 pub fn property(_ctx: &Ctx) -> Property {
     Property {
         id: "C08",
-        rule: "cases: paths of 2-8 ops mixing move/line/quad/cubic/arc/close in any order (curve first, directly after close, cusps, coincident control points, control points up to +-1500 units), both winding rules, identity / translation / rotation x scale / non-uniform scale / shear / mirror transforms (device geometry within +-4000 px), used as fill path or as clip path, white on transparent, 12..32 px surfaces. Oracle: f64 path walker with the statement's cursor rules, curves evaluated densely (<=0.08 px steps), winding number and distance to the outline per pixel centre; a pixel whose centre is more than 1 px + half a pixel diagonal from the outline must be exactly 0xffffffff when inside by the rule and exactly 0 when outside. Non-trivial: path with >=1 curve and >=1 judged-inside and >=1 judged-outside pixel; distinct by hash of the case.",
+        rule: "cases: paths of 2-8 ops mixing move/line/quad/cubic/arc/close in any order (curve first, directly after close, cusps, coincident control points, control points up to +-1500 units), both winding rules, identity / translation / rotation x scale / non-uniform scale / shear / mirror transforms (device geometry within +-4000 px), optionally with user space zoomed (units 4096 or 65536 times smaller, or 64 times larger, under a correspondingly scaled CTM), used as fill path or as clip path, white on transparent, 12..32 px surfaces. Oracle: f64 path walker with the statement's cursor rules, curves evaluated densely (<=0.08 px steps), winding number and distance to the outline per pixel centre; a pixel whose centre is more than 1 px + half a pixel diagonal from the outline must be exactly 0xffffffff when inside by the rule and exactly 0 when outside. Non-trivial: path with >=1 curve and >=1 judged-inside and >=1 judged-outside pixel; distinct by hash of the case.",
         assumptions: vec!["pixels within 1.71 px of the outline are not judged (counted as undecided)", "arcs are judged as the quads PathBuilder::arc emitted (C20 owns arc-vs-circle)"],
         parts: vec![part("fill", 80_000, 1_500_000, strategy, check)],
         min_class_fraction: vec![("fill", "has-curve", 0.8), ("fill", "as-clip-path", 0.15), ("fill", "draw-after-close", 0.05), ("fill", "non-monotonic-quad", 0.15), ("fill", "far-control-point", 0.05), ("fill", "curve-starts-above-row0", 0.1), ("fill", "control-point-level-with-endpoint", 0.1)],
